@@ -699,3 +699,13 @@ def c18_h(ctx):
               'subprocess_kwargs = subprocess_kwargs or {} before the pipe is set',
               'the user\'s subprocess options are discarded (or None is subscripted) when the '
               'stdout pipe is requested', fn=eo, node=sk[0] if sk else eo.node)
+
+
+@obligation('C18-i', 'T2', 'no result buffer takes the dtype of a caller\'s array and then receives '
+            'computed values (shared sweep of C08-l, restricted to the modules this property is '
+            'anchored in; `*_like(x)` and `dtype=x.dtype` allocations)', floor=1,
+            necessary='row results are stored as computed, not cast to the dtype of an input (numpy truncates floats silently when they are assigned into an '
+                      'integer array)')
+def c18_dtype(ctx):
+    from .base import inherited_dtype_obligation
+    inherited_dtype_obligation(ctx, ['elfi.model.tools'])
